@@ -44,8 +44,8 @@ func e2eProp(id, dir string, bounds, outside []string) *Prop {
 // chunks the runner derives from its text (e2eChunkSchemes).
 func c11Prop() *Prop {
 	p := e2eProp("C11", "e2e_c11",
-		[]string{"the program texts of harness/e2e_c11; for each, the cuts: one Eval per top-level declaration; the declarations then every statement of main as a loose statement (interactive style); every cut of the declarations into two Evals (thorough; quick: the middle cut); for the programs which have one, a hand-written interactive session with redefinitions of functions and variables between uses (<name>.hist.txt), claimed equivalent to the program; each for ALL values of the two integer inputs in (-1000, 1000) (quick) or (-2^31, 2^31) (thorough)"},
-		[]string{"programs outside the corpus", "Compile+Execute, CompileAST and EvalPath entry points (only successive Eval calls are exercised)", "the final global state beyond what the program outputs", "declarations out of dependency order (piecewise evaluation needs definitions before uses)", "the parser (each chunk's tree is dumped from the real front end, parsed the way Eval parses it)"})
+		[]string{"the program texts of harness/e2e_c11; for each: Compile then Execute of the whole text; and the cuts: one Eval per top-level declaration; the declarations then every statement of main as a loose statement (interactive style); every cut of the declarations into two Evals (thorough; quick: the middle cut); for the programs which have one, a hand-written interactive session with redefinitions of functions and variables between uses (<name>.hist.txt), claimed equivalent to the program; each for ALL values of the two integer inputs in (-1000, 1000) (quick) or (-2^31, 2^31) (thorough)"},
+		[]string{"programs outside the corpus", "CompileAST and EvalPath entry points (successive Eval calls and Compile+Execute of the whole text are exercised)", "the final global state beyond what the program outputs", "declarations out of dependency order (piecewise evaluation needs definitions before uses)", "the parser (each chunk's tree is dumped from the real front end, parsed the way Eval parses it)"})
 	p.E2EChunks = true
 	p.Assumptions = append(p.Assumptions, "the reference is the interpreter itself evaluating the text in one piece (not the compiled twin)")
 	dir := "e2e_c11"
@@ -58,6 +58,8 @@ func c11Prop() *Prop {
 		}
 		for k, f := range files {
 			b, _ := os.ReadFile(f)
+			// the whole text through Compile then Execute
+			r = append(r, Oblig{Harness: "vh_E2E_chunks", Unroll: 400, MaxPaths: 20000, Globals: map[string]int{"vhProgIdx": k, "vhScheme": -1, "vhInputBound": bound}})
 			schemes, _ := e2eChunkSchemes(string(b))
 			nsplit := len(schemes)
 			schemes = append(schemes, e2eHistory(strings.TrimSuffix(f, ".go.txt")+".hist.txt"))
